@@ -68,7 +68,8 @@ def digest(o):
     return hashlib.blake2b(jdump(o).encode(), digest_size=8).digest()
 
 
-class StopTask(Exception):
+class StopTask(BaseException):
+    """not an Exception: must not be swallowed by the `except Exception` around calls into the library"""
     pass
 
 
@@ -104,6 +105,7 @@ class Acc:
         self.classes = collections.Counter()
         self.caps = []
         self.errors = []          # machinery errors (never a silent pass)
+        self.memo = {}            # (operation, argument digest) -> result, shared across histories and merged across workers
         self.unknown_viol = 0
         self.budget = None        # set in worker tasks: stop a task after this many non-known violations
 
@@ -319,16 +321,24 @@ def _run_task(t):
     return acc
 
 
-def run_parallel(modname, tasks, acc, procs=None):
-    """tasks: list of (function name, JSON-able arg).  Deterministic partition."""
+def run_parallel(modname, tasks, acc, procs=None, memo_merge=None):
+    """tasks: list of (function name, JSON-able arg).  Deterministic partition.
+    memo_merge(acc, part_memo): merges a worker's memo table into the master's and reports conflicts."""
     procs = procs or int(os.environ.get('VERIF_PROCS', '16'))
     items = [(modname, f, a) for f, a in tasks]
+
+    def take(part):
+        pm, part.memo = part.memo, {}
+        acc.merge(part)
+        if memo_merge is not None:
+            memo_merge(acc, pm)
+
     if procs <= 1 or len(items) <= 1:
         _worker_init()
         for it in items:
-            acc.merge(_run_task(it))
+            take(_run_task(it))
         return
     ctx = mp.get_context('fork')
     with ctx.Pool(min(procs, len(items)), initializer=_worker_init) as pool:
         for part in pool.imap(_run_task, items, chunksize=1):
-            acc.merge(part)
+            take(part)
